@@ -6,6 +6,8 @@
 use crate::provider::{Event, Kind, Log, VProvider};
 use crate::storage::{Ctl, FaultCtl, VGroupStorage, VKeyPackageStorage, VPskStorage};
 use mls_rs::client_builder::MlsConfig;
+use mls_rs::external_client::builder::MlsConfig as ExternalMlsConfig;
+use mls_rs::external_client::{ExternalClient, ExternalGroup, ExternalReceivedMessage, ExternalSnapshot};
 use mls_rs::group::proposal::Proposal;
 use mls_rs::group::{CommitEffect, ExportedTree, Node, ReceivedMessage};
 use mls_rs::identity::basic::{BasicCredential, BasicIdentityProvider};
@@ -136,6 +138,23 @@ pub fn make_client(spec: &Spec, parts: &Parts, suite: CipherSuite) -> Client<imp
         .build()
 }
 
+pub fn make_observer(jitter: Option<u64>, signer: Option<(SignatureSecretKey, SigningIdentity)>) -> ExternalClient<impl ExternalMlsConfig> {
+    let b = ExternalClient::builder()
+        .crypto_provider(VProvider { kind: Kind::OpenSsl, log: Arc::new(Mutex::new(Vec::new())) })
+        .identity_provider(BasicIdentityProvider)
+        .custom_proposal_types([mls_rs::group::proposal::ProposalType::new(0xF001)])
+        .extension_type(mls_rs::extension::ExtensionType::new(0xF010))
+        .cache_proposals(true);
+    let b = match jitter {
+        Some(j) => b.max_epoch_jitter(j),
+        None => b,
+    };
+    match signer {
+        Some((k, id)) => b.signer(k, id).build(),
+        None => b.build(),
+    }
+}
+
 fn err_name<E: std::fmt::Debug>(e: &E) -> String {
     let s = format!("{e:?}");
     s.chars().take_while(|c| c.is_alphanumeric() || *c == '_').collect()
@@ -159,7 +178,9 @@ fn prop_kind(p: &Proposal) -> &'static str {
     }
 }
 
-pub struct World<C: MlsConfig> {
+pub struct World<C: MlsConfig, E: ExternalMlsConfig> {
+    pub observers: BTreeMap<String, ExternalGroup<E>>,
+    pub mk_obs: Box<dyn Fn(Option<u64>, Option<(SignatureSecretKey, SigningIdentity)>) -> ExternalClient<E>>,
     pub suite: CipherSuite,
     pub members: BTreeMap<String, Member<C>>,
     pub msgs: HashMap<String, Vec<u8>>,
@@ -167,7 +188,7 @@ pub struct World<C: MlsConfig> {
     pub intern: Intern,
 }
 
-impl<C: MlsConfig> World<C> {
+impl<C: MlsConfig, E: ExternalMlsConfig + Clone> World<C, E> {
     fn msg(&self, id: &str) -> Result<MlsMessage, String> {
         let b = self.msgs.get(id).ok_or(format!("no message {id}"))?;
         MlsMessage::from_bytes(b).map_err(|e| format!("decode:{}", err_name(&e)))
@@ -180,6 +201,17 @@ impl<C: MlsConfig> World<C> {
     }
 
     pub fn observe(&mut self, who: &str) -> Value {
+        if let Some(g) = self.observers.get(who) {
+            let it = &mut self.intern;
+            let ctx = g.group_context();
+            let tree = g.export_tree().unwrap_or_default();
+            let roster: Vec<Value> = g.roster().members_iter().map(|mm| {
+                let idb = mm.signing_identity.credential.as_basic().map(|b| String::from_utf8_lossy(&b.identifier).to_string()).unwrap_or_default();
+                json!([mm.index, idb])
+            }).collect();
+            return json!({"group": true, "observer": true, "epoch": ctx.epoch, "ctx": it.id(&ctx.mls_encode_to_vec().unwrap_or_default()),
+                "tree_bytes": it.id(&tree), "roster": roster, "nprops": g.get_cached_proposals().len()});
+        }
         let Some(m) = self.members.get(who) else { return json!(null) };
         let Some(g) = m.group.as_ref() else { return json!({"group": false}) };
         let it = &mut self.intern;
@@ -272,7 +304,31 @@ impl<C: MlsConfig> World<C> {
         a.sort();
         let mut u = unused.clone();
         u.sort();
-        json!({"kind": "commit", "committer": c.committer, "external": c.is_external, "effect": effect, "applied": a, "unused": u, "new_epoch": epoch, "aad": hex::encode(&c.authenticated_data)})
+        let list = match &c.effect {
+            CommitEffect::NewEpoch(e) => Some(&e.applied_proposals),
+            CommitEffect::Removed { new_epoch, .. } => Some(&new_epoch.applied_proposals),
+            CommitEffect::ReInit(_) => None,
+        };
+        let name = |si: &SigningIdentity| si.credential.as_basic().map(|b| String::from_utf8_lossy(&b.identifier).to_string()).unwrap_or_default();
+        let detail: Vec<Value> = list
+            .map(|l| {
+                l.iter()
+                    .map(|p| {
+                        let sender = match p.sender {
+                            mls_rs::group::Sender::Member(i) => json!(i),
+                            _ => json!(format!("{:?}", p.sender)),
+                        };
+                        match &p.proposal {
+                            Proposal::Add(a) => json!({"k": "add", "id": name(a.signing_identity()), "by": sender}),
+                            Proposal::Update(u) => json!({"k": "update", "id": name(u.signing_identity()), "by": sender}),
+                            Proposal::Remove(r) => json!({"k": "remove", "idx": r.to_remove(), "by": sender}),
+                            other => json!({"k": prop_kind(other), "by": sender}),
+                        }
+                    })
+                    .collect()
+            })
+            .unwrap_or_default();
+        json!({"kind": "commit", "committer": c.committer, "external": c.is_external, "effect": effect, "applied": a, "unused": u, "detail": detail, "new_epoch": epoch, "aad": hex::encode(&c.authenticated_data)})
     }
 
     /// Execute one op; Ok(info) or Err(error name).
@@ -571,15 +627,58 @@ impl<C: MlsConfig> World<C> {
                 let s = mls!(grp!().verif_snapshot());
                 Ok(json!({"hex": hex::encode(s)}))
             }
+            "tree_dump" => {
+                let g = grp!();
+                let t = mls!(g.export_tree().to_bytes());
+                Ok(json!({"tree": hex::encode(t), "tree_hash": hex::encode(&g.context().tree_hash), "suite": u16::from(g.cipher_suite())}))
+            }
+            "obs_join" => {
+                let gi = self.msg(op["gi"].as_str().unwrap_or(""))?;
+                let tree = match op["tree"].as_str() {
+                    Some(t) => Some(mls!(ExportedTree::from_bytes(self.trees.get(t).ok_or("no tree")?)).into_owned()),
+                    None => None,
+                };
+                let signer = match op["signer_of"].as_str() {
+                    Some(n) => self.members.get(n).map(|m| (m.signer.clone(), m.identity.clone())),
+                    None => None,
+                };
+                let ec = (self.mk_obs)(op["jitter"].as_u64(), signer);
+                let g = mls!(ec.observe_group(gi, tree, None));
+                self.observers.insert(who.clone(), g);
+                Ok(json!({}))
+            }
+            "obs_deliver" => {
+                let to = op["to"].as_str().unwrap_or("").to_string();
+                let msg = self.msg(op["msg"].as_str().unwrap_or(""))?;
+                let g = self.observers.get_mut(&to).ok_or("no such observer")?;
+                let r = mls!(g.process_incoming_message(msg));
+                Ok(match &r {
+                    ExternalReceivedMessage::Commit(c) => Self::describe_commit(c),
+                    ExternalReceivedMessage::Proposal(p) => json!({"kind": "proposal", "ptype": prop_kind(&p.proposal)}),
+                    ExternalReceivedMessage::Ciphertext(ct) => json!({"kind": "ciphertext", "ctype": format!("{ct:?}")}),
+                    ExternalReceivedMessage::GroupInfo(_) => json!({"kind": "group_info"}),
+                    ExternalReceivedMessage::Welcome => json!({"kind": "welcome"}),
+                    ExternalReceivedMessage::KeyPackage(_) => json!({"kind": "key_package"}),
+                })
+            }
+            "obs_reload" => {
+                let g = self.observers.get(&who).ok_or("no such observer")?;
+                let b = mls!(g.snapshot().to_bytes());
+                let snap = mls!(ExternalSnapshot::from_bytes(&b));
+                let ec = (self.mk_obs)(op["jitter"].as_u64(), None);
+                let g2 = mls!(ec.load_group(snap));
+                self.observers.insert(who.clone(), g2);
+                Ok(json!({"bytes": b.len()}))
+            }
             "observe" => Ok(json!({})),
             _ => Err(format!("unknown op {kind}")),
         }
     }
 }
 
-pub fn run_world<C: MlsConfig>(script: &Value, mk: &dyn Fn(&Spec, &Parts, CipherSuite) -> Client<C>, dir: &std::path::Path) -> i32 {
+pub fn run_world<C: MlsConfig, E: ExternalMlsConfig + Clone + 'static>(script: &Value, mk: &dyn Fn(&Spec, &Parts, CipherSuite) -> Client<C>, mk_obs: fn(Option<u64>, Option<(SignatureSecretKey, SigningIdentity)>) -> ExternalClient<E>, dir: &std::path::Path) -> i32 {
     let suite = CipherSuite::from(script["suite"].as_u64().unwrap_or(1) as u16);
-    let mut world = World { suite, members: BTreeMap::new(), msgs: HashMap::new(), trees: HashMap::new(), intern: Intern { map: HashMap::new() } };
+    let mut world = World { observers: BTreeMap::new(), mk_obs: Box::new(mk_obs), suite, members: BTreeMap::new(), msgs: HashMap::new(), trees: HashMap::new(), intern: Intern { map: HashMap::new() } };
     for m in script["members"].as_array().cloned().unwrap_or_default() {
         let spec = Spec {
             name: m["name"].as_str().unwrap_or("?").to_string(),
@@ -659,7 +758,7 @@ pub fn run_world<C: MlsConfig>(script: &Value, mk: &dyn Fn(&Spec, &Parts, Cipher
             }
         }
         let obs_who: Vec<String> = match &op["observe"] {
-            Value::String(s) if s == "all" => world.members.keys().cloned().collect(),
+            Value::String(s) if s == "all" => world.members.keys().cloned().chain(world.observers.keys().cloned()).collect(),
             Value::String(s) => vec![s.clone()],
             Value::Bool(true) => vec![subject.clone()],
             Value::Array(a) => a.iter().filter_map(|v| v.as_str().map(|s| s.to_string())).collect(),
@@ -717,7 +816,7 @@ pub fn run() -> i32 {
         println!("{}", json!({"begin": script["name"]}));
         let sub = dir.join(format!("s{}", rand_id()));
         std::fs::create_dir_all(&sub).ok();
-        code |= run_world(&script, &|s, p, cs| make_client(s, p, cs), &sub);
+        code |= run_world(&script, &|s, p, cs| make_client(s, p, cs), make_observer, &sub);
         std::fs::remove_dir_all(&sub).ok();
         println!("{}", json!({"end": script["name"]}));
     }
